@@ -764,3 +764,44 @@ def r_dashmap_guards(ctx):
 
 def short_name(body):
     return (body.fn_name or '?') + ('::closure' if body.kind == 'closure' else '')
+
+
+# ------------------------------------------------------------------------------------------------
+# R01.8 — the "do nothing" components really do nothing: the non-caching / no-dominance / no-cutoff solvers are the reference the
+# other configurations are compared with (C09, C10), and every property quantifies over them
+# ------------------------------------------------------------------------------------------------
+def r_neutral_components(ctx, rule='R01.8'):
+    from .dd_rules import _path_ret
+    def rets(body):
+        out = []
+        for (edges, blocks, end) in M.enumerate_paths(body, (0, 0)):
+            rt = _path_ret(body, blocks, end)
+            if rt is None:
+                rb = body.return_blocks()
+                rt = body.origin.place({'l': 0, 'p': []}, body.term_point(rb[0])) if rb else None
+            for (conds, leaf) in M.cases(rt):
+                out.append(leaf)
+        return out
+    def no_effects(body):
+        return not [1 for (pt, d, v, s_) in writes(body)] and not [1 for (bb, t) in body.calls() if not M.is_pure(t.get('callee')) and (t.get('callee') or '').split('::')[-1] not in ('default', 'new', 'deref', 'as_ref', 'clone')]
+    ed = ctx.body('empty::EmptyDominanceChecker', 'is_dominated_or_insert', trait='DominanceChecker')
+    vals = rets(ed)
+    good = bool(vals) and all(isinstance(v, tuple) and v[0] == 'aggr' and v[1].endswith('DominanceCheckResult') and M.is_const(dict(v[3])['dominated'], False) and dict(v[3])['threshold'] == M.MK_NONE for v in vals)
+    ctx.check(good and no_effects(ed), rule, 'EmptyDominanceChecker/never-dominated', ed, ed.loc(0), 'EmptyDominanceChecker reports (dominated: false, threshold: None) and stores nothing',
+              'EmptyDominanceChecker::is_dominated_or_insert returns %s' % [M.show(v)[:80] for v in vals][:3])
+    ec = ctx.body('empty::EmptyDominanceChecker', 'cmp', trait='DominanceChecker')
+    vals = rets(ec)
+    ctx.check(bool(vals) and all(isinstance(v, tuple) and v[0] == 'aggr' and v[2] == 'Equal' for v in vals), rule, 'EmptyDominanceChecker/cmp-equal', ec, ec.loc(0),
+              'EmptyDominanceChecker::cmp ranks every pair Equal (a constant strict answer is not an order: the layer sort may misbehave or panic)', 'EmptyDominanceChecker::cmp returns %s' % [M.show(v)[:60] for v in vals][:3])
+    gt = ctx.body('empty::EmptyCache', 'get_threshold', trait='Cache')
+    vals = rets(gt)
+    ctx.check(bool(vals) and all(v == M.MK_NONE for v in vals), rule, 'EmptyCache/no-threshold', gt, gt.loc(0), 'EmptyCache::get_threshold answers None', 'EmptyCache::get_threshold returns %s' % [M.show(v)[:60] for v in vals][:3])
+    for nm in ('update_threshold', 'clear_layer', 'clear'):
+        ub_ = ctx.body('empty::EmptyCache', nm, trait='Cache')
+        ctx.check(no_effects(ub_), rule, 'EmptyCache/%s-is-a-no-op' % nm, ub_, ub_.loc(0), 'EmptyCache::%s does nothing' % nm, 'EmptyCache::%s has effects' % nm)
+    nc = ctx.body('cutoff::NoCutoff', 'must_stop', trait='Cutoff')
+    vals = rets(nc)
+    ctx.check(bool(vals) and all(M.is_const(v, False) for v in vals), rule, 'NoCutoff/never-stops', nc, nc.loc(0), 'NoCutoff::must_stop answers false', 'NoCutoff::must_stop returns %s' % [M.show(v)[:60] for v in vals][:3])
+    fw = ctx.body('width::FixedWidth', 'max_width', trait='WidthHeuristic')
+    vals = rets(fw)
+    ctx.check(bool(vals) and all(M.is_field(v, '0') and M.is_param(v[1], index=0) for v in vals), rule, 'FixedWidth/returns-its-width', fw, fw.loc(0), 'FixedWidth::max_width returns the configured width', 'FixedWidth::max_width returns %s' % [M.show(v)[:60] for v in vals][:3])
